@@ -51,8 +51,15 @@ def c06(ctx):
         r = G.run_server_auth_case(rp['phase'], rp['type'], body)
     elif rp['kind'] == 'server-clear':
         twin = G.run_server_case(no_strict=not rp['strict'])
+        guessed = rp['point'] == 'guessed'
         r = G.run_server_case(None, no_strict=not rp['strict'],
-                              cleartext={rp['point']: [(rp['type'], body)]})
+                              wrong_guess=guessed,
+                              cleartext={'after_kexinit' if guessed else
+                                         rp['point']: [(rp['type'], body)]})
+        if guessed and rp['strict'] and not r.get('closed') and \
+                not (30 <= rp['type'] <= 49):
+            ctx.violation(sig, 'strict key exchange: the message in place of '
+                          'the wrongly guessed packet was tolerated', replay=rp)
     elif rp['kind'] == 'client':
         twin = G.run_client_case()
         r = G.run_client_case(rp['point'], rp['type'], body)
